@@ -208,6 +208,37 @@ def stale_import_job(j):
     return dict(viols=v, outcome=("stale", res.rc, unrec))
 
 
+def import_toctou_job(j):
+    """import by content (--test-import-content DIR): the directory is hashed when it is scanned, the bytes are fetched later.  Here the
+    file offering the wanted block is repaired by the very fix that wants to import from it, in an EARLIER stripe: at fetch time it
+    no longer holds what the scan saw.  The fetched bytes must be re-verified; the lost file gets its own bytes or nothing"""
+    levels, seed = j
+    cfg = Config(levels=levels, ndisks=2)
+    v = []
+    where = "import by content from a file the same fix repairs first, levels=%d" % levels
+    with labmod.Lab(cfg, seed=seed) as L:
+        X.apply_op(L, ("write", "d1", "pad", 1024, 0))     # stripe 0 on d1
+        X.apply_op(L, ("write", "d1", "x", 1024, 0))       # stripe 1 on d1
+        X.apply_op(L, ("write", "d2", "y", 1024, 0))       # stripe 0 on d2
+        r = L.run("sync")
+        assert r.rc == 0, r.text()
+        xb, yb = L.read("d1", "x"), L.read("d2", "y")
+        st = os.lstat(L.p("d2", "y"))
+        L.rm("d1", "x")
+        with open(L.p("d2", "y"), "r+b") as fh:            # y silently holds x's bytes now (size and stamp kept)
+            fh.write(xb)
+        os.utime(L.p("d2", "y"), ns=(st.st_mtime_ns, st.st_mtime_ns))
+        res = L.run("fix", "--test-import-content", L.p("d2"))
+        e = L.snap().get("d1/x")
+        rec_x = any(len(t) >= 4 and t[3] == b"x" for t in res.tags.get("status", "recovered"))
+        # (the tool stops with a failing status when it notices the change; the file it had begun to re-create stays behind
+        # unfinished and unreported - the kind of leftover recorded as C05/fix-stops-on-self-renamed-search-source; not judged here)
+        if e is not None and e[0] == "f" and e[3] != xb and (res.rc == 0 or rec_x):
+            v.append(dict(kind="imported-bytes-not-reverified", where=where, rc=res.rc, holds="bytes of y" if e[3] == yb else "other bytes",
+                          reported_recovered=rec_x))
+    return dict(viols=v, outcome=("import-toctou", res.rc, False))
+
+
 def uuid_job(j):
     """the move shortcut (same inode, size, time-stamp) after the disks' UUID changed: inode numbers of the old file system mean nothing,
     a file that happens to own the number another look-alike file had must be read, not trusted"""
@@ -292,6 +323,13 @@ def run(ctx):
                     raise RuntimeError("harness problem %r" % v)
                 ctx.violation("C19/stale-import/%s" % v["kind"], "%s: %s" % (v["kind"], v.get("where")),
                               dict(stale_import=True, levels=lv, source=source, violation=v))
+    for lv in sorted(set(levels) | {2}):
+        r = import_toctou_job((lv, ctx.seed))
+        evals += 2
+        ctx.nontrivial(("import-toctou", lv))
+        ctx.outcome(r["outcome"])
+        for v in r["viols"]:
+            ctx.violation("C19/import-content/%s" % v["kind"], "%s: %s" % (v["kind"], v.get("where")), dict(import_toctou=True, levels=lv, violation=v))
     for lv in levels:
         r = uuid_job((lv, False, ctx.seed))
         evals += 3
@@ -308,6 +346,11 @@ def run(ctx):
 
 
 def replay(r):
+    if r.get("import_toctou"):
+        out = import_toctou_job((r["levels"], 0))
+        for v in out["viols"]:
+            print("  ", v)
+        return not out["viols"]
     if r.get("stale_import"):
         out = stale_import_job((r["levels"], r["source"], 0))
         for v in out["viols"]:
